@@ -41,6 +41,10 @@ type Kernel struct {
 	RecordJen bool
 	// ReplayTries: native replays are repeated (properties that depend on Go's map randomisation)
 	ReplayTries int
+	// LoopsBounded: every loop reachable from the harness terminates within Unwind visits by construction of the
+	// harness, so a path that exceeds the bound is a non-termination candidate (kind "hang"), confirmed by a
+	// native replay that must run into the test timeout
+	LoopsBounded bool
 }
 
 // NondetRec records one nondet intrinsic call on a path.
@@ -223,7 +227,13 @@ func (s *Session) pkgPath(pkg string) string {
 	return GoverterModule + "/" + pkg
 }
 
+// small pure standard-library functions that are executed from their SSA like goverter's own code
+var pureStd = map[string]bool{"bytes.HasPrefix": true, "bytes.HasSuffix": true, "bytes.Equal": true}
+
 func inGoverter(fn *ssa.Function) bool {
+	if pureStd[fn.String()] {
+		return true
+	}
 	for f := fn; f != nil; f = f.Parent() {
 		if f.Pkg != nil {
 			p := f.Pkg.Pkg.Path()
@@ -303,6 +313,34 @@ func (s *Session) Run(k Kernel) *KernelResult {
 			if g, ok := pkg.Members[name].(*ssa.Global); ok {
 				*r.Global(g) = engine.BVConst(64, uint64(v))
 			}
+		}
+		if k.LoopsBounded {
+			defer func() {
+				rec := recover()
+				if rec == nil {
+					return
+				}
+				if ab, ok := rec.(*engine.Abort); ok && (ab.Kind == "unwind" || ab.Kind == "depth") {
+					key := "hang@" + ab.Reason
+					m, _ := r.Witness(nil)
+					res.mu.Lock()
+					st := res.Panics[key]
+					if st == nil {
+						st = &AssertStat{ID: key}
+						res.Panics[key] = st
+					}
+					st.Failed++
+					if len(st.Examples) < 2 {
+						ce := env.counterexample(r, ps, key, "hang", "loop or recursion exceeds the bound the harness guarantees: "+ab.Reason, m)
+						st.Examples = append(st.Examples, ce)
+						if st.First == nil {
+							st.First = ce
+						}
+					}
+					res.mu.Unlock()
+				}
+				panic(rec)
+			}()
 		}
 		cr := r.CallGuarded(hfn, nil)
 		res.mu.Lock()
